@@ -250,6 +250,8 @@ def frame_to_spreadsheet(df, extra_sheets=None):
 # --------------------------------------------------------------------------- generation (all randomness = Hypothesis draws)
 
 PROG_NAMES = ["Pa", "Pb", "Pc", "Pd"]
+NESTED_PROG_NAMES = ["Ga", "Gab", "Ga2", "aG"]  # names (and labels "Prog Ga", "Prog Gab") that are prefixes / substrings of each other
+NESTED_POP_NAMES = {"pa": "adults", "pb": "adults2", "pc": "ad"}
 NICE = [0.0, 0.5, 1.0, 2.0, 0.25, 10.0, 100.0, 0.1, 1e-3, 12345.678]
 
 
@@ -292,8 +294,10 @@ def series(draw, years, lo, hi, sigma_choices, force_both=False):
     return d
 
 
-def add_programs(draw, spec, sigma_choices, min_progs=1, max_progs=3):
-    """mark 1-3 non-timed parameters targetable and add spec['progs'], spec['instr'] (formats of build.make_progset)"""
+def add_programs(draw, spec, sigma_choices, min_progs=1, max_progs=3, nested_names=False, fine_years=()):
+    """mark 1-3 non-timed parameters targetable and add spec['progs'], spec['instr'] (formats of build.make_progset).
+    nested_names: program names that contain each other; effects then tend to involve every program and explicit
+    interactions between arbitrary subsets, and coverage overwrites make combinations matter (total coverage > 1)"""
     st = _st()
     start, end, dt = spec["settings"]["start"], spec["settings"]["end"], spec["settings"]["dt"]
     pops = [p if isinstance(p, str) else p["name"] for p in spec["pops"]]
@@ -310,9 +314,9 @@ def add_programs(draw, spec, sigma_choices, min_progs=1, max_progs=3):
             p["tgt"] = True
     fmt_of = {p["name"]: p.get("fmt") for p in spec["pars"]}
     comps = [c["name"] for c in spec["comps"] if c["kind"] == "ord"]
-    n = draw(st.integers(min_progs, max_progs))
-    names = PROG_NAMES[:n]
-    years = sorted(set([start - 1.0, start, start + 1.0, start + 2.5, start + 5.0]))
+    n = draw(st.integers(max(min_progs, 3) if nested_names else min_progs, max(max_progs, 3) if nested_names else max_progs))
+    names = (NESTED_PROG_NAMES if nested_names else PROG_NAMES)[:n]
+    years = sorted(set([start - 1.0, start, start + 1.0, start + 2.5, start + 5.0]) | set(fine_years))
     progs = []
     for nm in names:
         p = {
@@ -335,11 +339,17 @@ def add_programs(draw, spec, sigma_choices, min_progs=1, max_progs=3):
     for par in tgt:
         lo, hi = outcome_range(fmt_of[par])
         for pop in draw(st.lists(st.sampled_from(pops), unique=True, min_size=1, max_size=len(pops))):
-            pr = draw(st.lists(st.sampled_from(names), unique=True, min_size=0 if len(covouts) else 1, max_size=n))
+            if nested_names and draw(st.booleans()):
+                pr = list(names)
+            else:
+                pr = draw(st.lists(st.sampled_from(names), unique=True, min_size=0 if len(covouts) else 1, max_size=n))
             c = {"par": par, "pop": pop, "base": number(draw, lo, hi), "progs": {k: number(draw, lo, hi) for k in sorted(pr)}, "ci": draw(st.sampled_from(["additive", "random", "nested"]))}
-            if len(pr) >= 2 and draw(st.booleans()):
-                combos = [sorted(pr)] if len(pr) == 2 else [sorted(pr), sorted(pr)[:2]]
-                c["imp"] = {"+".join(k): number(draw, lo, hi) for k in combos[: draw(st.integers(1, len(combos)))]}
+            if len(pr) >= 2 and (nested_names or draw(st.booleans())):
+                import itertools
+
+                combos = [list(k) for r in range(2, len(pr) + 1) for k in itertools.combinations(sorted(pr), r)]
+                chosen = draw(st.lists(st.sampled_from(combos), unique_by=tuple, min_size=1, max_size=min(3, len(combos))))
+                c["imp"] = {"+".join(k): number(draw, lo, hi) for k in chosen}
             s = draw(st.sampled_from(sigma_choices + [0.0]))
             c["sigma"] = number(draw, 1e-3, 0.5) if s == "pos" else s
             covouts.append(c)
@@ -348,11 +358,38 @@ def add_programs(draw, spec, sigma_choices, min_progs=1, max_progs=3):
     ins = {"start": [start, start + dt, start + 1.0, start - 1.0][k]}
     if draw(st.integers(0, 3)) == 0:
         ins["stop"] = start + draw(st.integers(1, 6)) * 1.0
+    if nested_names or draw(st.integers(0, 3)) == 0:
+        # coverage overwrites: several programs cover most people at once, so that outcomes of program combinations are used
+        cov = {}
+        for nm in names:
+            if draw(st.integers(0, 3)) > 0:
+                cov[nm] = {"a": draw(st.sampled_from([0.9, 0.7, 1.0, 0.5, 0.2]))}
+        if cov:
+            ins["coverage"] = cov
     spec["instr"] = ins
     return True
 
 
-def decorate_data(draw, spec, sigma_choices, p_sigma=0.4, p_both=0.25, dense=False):
+def rename_pops(spec, mapping):
+    """rename populations everywhere in a spec (names that contain each other: 'adults', 'adults2', 'ad')"""
+    m = lambda p: mapping.get(p, p)
+    pair = lambda k: ">".join(m(x) for x in k.split(">"))
+    spec["pops"] = [m(p) if isinstance(p, str) else dict(p, name=m(p["name"])) for p in spec["pops"]]
+    data = spec["data"]
+    data["q"] = {q: {m(p): e for p, e in bypop.items()} for q, bypop in data["q"].items()}
+    data["yf"] = {q: {m(p): f for p, f in bypop.items()} for q, bypop in (data.get("yf") or {}).items()}
+    for tr in data.get("tr", []):
+        tr["e"] = {pair(k): e for k, e in tr["e"].items()}
+    data["iw"] = {w: {pair(k): e for k, e in entries.items()} for w, entries in (data.get("iw") or {}).items()}
+    if spec.get("progs"):
+        for p in spec["progs"]["progs"]:
+            p["pops"] = sorted(m(x) for x in p["pops"])
+        for c in spec["progs"]["covouts"]:
+            c["pop"] = m(c["pop"])
+    return spec
+
+
+def decorate_data(draw, spec, sigma_choices, p_sigma=0.4, p_both=0.25, dense=False, fine_years=()):
     """add uncertainties and 'assumption + years' entries to the databook part of a drawn spec and make the databook's
     time axis contain every year that is used (documented precondition of the table classes)"""
     st = _st()
@@ -360,7 +397,20 @@ def decorate_data(draw, spec, sigma_choices, p_sigma=0.4, p_both=0.25, dense=Fal
     used = set()
     feats = set()
 
-    def deco(e, allow_both=True):
+    fine_years = list(fine_years)
+
+    def deco(e, allow_both=True, fmt_lo_hi=None):
+        if fine_years and draw(st.integers(0, 2)) == 0:
+            # time-specific values in neighbouring columns of a weekly / daily / 0.01-year time axis
+            k0 = draw(st.integers(0, len(fine_years) - 2))
+            ts = fine_years[k0 : k0 + draw(st.integers(2, 4))]
+            ref = (e.get("v") or [e.get("a") if e.get("a") is not None else 0.5])[0]
+            have = dict(zip(e.get("t", []), e.get("v", [])))
+            for j, t in enumerate(ts):
+                have[t] = ref * (1.0 + 0.125 * (j + 1)) if ref else 0.03125 * (j + 1)
+            e["t"] = sorted(have)
+            e["v"] = [have[t] for t in e["t"]]
+            feats.add("fine-time-axis")
         if draw(st.floats(0, 1)) < p_sigma:
             s = draw(st.sampled_from(sigma_choices))
             if s == "pos":
@@ -397,6 +447,7 @@ def decorate_data(draw, spec, sigma_choices, p_sigma=0.4, p_both=0.25, dense=Fal
     start = spec["settings"]["start"]
     if dense:
         base.update(start + k for k in range(-3, 8))
+    base.update(fine_years)
     data["years"] = sorted(base | used)
     return feats
 
@@ -415,6 +466,8 @@ def data_features(spec):
             feats.add("sparse-series" if len(e["t"]) < 3 else "series")
             if e.get("a") is not None:
                 feats.add("assumption+years")
+            if len(e["t"]) > 1 and min(b - a for a, b in zip(e["t"], e["t"][1:])) <= 0.021:
+                feats.add("fine-time-axis")
         elif e.get("a") is not None:
             feats.add("assumption")
 
@@ -436,3 +489,30 @@ def data_features(spec):
         if c.get("sigma"):
             feats.add("uncertainty")
     return feats
+
+
+def covout_probe(pg):
+    """outcome of every program effect at a few coverage patterns (all programs at 1.0 / 0.6 / 0.3): what a simulation would use
+    when several programs cover the same people, independent of the coverages a particular run happens to reach"""
+    out = {}
+    names = list(pg.programs.keys())
+    for key, c in pg.covouts.items():
+        for lab, val in (("all@1", 1.0), ("all@0.6", 0.6), ("all@0.3", 0.3)):
+            cov = {n: np.array([val]) for n in names}
+            try:
+                out[(tuple(key), lab)] = float(c.get_outcome(cov))
+            except Exception as e:  # noqa
+                out[(tuple(key), lab)] = "raises " + type(e).__name__
+    return out
+
+
+def probe_diff(a, b, rtol=1e-9):
+    bad = []
+    for k in sorted(set(a) | set(b), key=repr):
+        x, y = a.get(k, "<absent>"), b.get(k, "<absent>")
+        if isinstance(x, float) and isinstance(y, float):
+            if not (abs(x - y) <= rtol * max(1.0, abs(x), abs(y)) or (x != x and y != y)):
+                bad.append((k, x, y))
+        elif x != y:
+            bad.append((k, x, y))
+    return bad
